@@ -250,9 +250,35 @@ type c14MatrixLayout struct {
 // (observe, rendezvous, observe, observe). In the sequential passes the rendezvous is a no-op and I1 runs to
 // completion before I2 starts.
 func c14MatrixScripts(mut c14Named) ([]proto.ConcScript, c14MatrixLayout) {
+	return c14MatrixScriptsOf(mut, c14Observers, false)
+}
+
+// c14StdObservers look at the standard streams themselves; c14StdMutators use them. Run once with interpreters that
+// own a reader and a writer and once with interpreters created by prolog.New(nil, nil) (no reader, no writer: the
+// operations that touch the missing reader or writer end in an error, alone and concurrently alike).
+var c14StdObservers = []c14Named{
+	{"user_output position", []string{"findall(P, (stream_property(S, alias(user_output)), stream_property(S, position(P))), L)."}},
+	{"user_input position", []string{"findall(P, (stream_property(S, alias(user_input)), stream_property(S, position(P))), L)."}},
+	{"user_input end_of_stream", []string{"findall(E, (stream_property(S, alias(user_input)), stream_property(S, end_of_stream(E))), L)."}},
+	{"standard aliases", []string{"(setof(A, S^stream_property(S, alias(A)), L) -> true ; '='(L, []))."}},
+	{"current_output", []string{"findall(A, (current_output(S), stream_property(S, alias(A))), L)."}},
+	{"current_input", []string{"findall(A, (current_input(S), stream_property(S, alias(A))), L)."}},
+	{"write", []string{"write(hello_std), nl."}},
+	{"peek_char", []string{"catch(peek_char(C), error(E, _), true)."}},
+}
+
+var c14StdMutators = []c14Named{
+	{"write user_output", []string{"write(some_text_of_i1), nl."}},
+	{"get_char user_input", []string{"get_char(C)."}},
+	{"read to the end of user_input", []string{"findall(C, (between(1, 120, _), get_char(C)), L)."}},
+	{"close user_output", []string{"close(user_output)."}},
+	{"close user_input", []string{"close(user_input)."}},
+}
+
+func c14MatrixScriptsOf(mut c14Named, observers []c14Named, nilIO bool) ([]proto.ConcScript, c14MatrixLayout) {
 	lay := c14MatrixLayout{Mutator: mut.Name}
 	var battery []proto.ConcStep
-	for _, o := range c14Observers {
+	for _, o := range observers {
 		lay.ObsIndex = append(lay.ObsIndex, len(battery))
 		lay.ObsNames = append(lay.ObsNames, o.Name)
 		battery = append(battery, c14Steps(o.Steps)...)
@@ -279,5 +305,5 @@ func c14MatrixScripts(mut c14Named) ([]proto.ConcScript, c14MatrixLayout) {
 		lay.I2Start = append(lay.I2Start, len(s1))
 		s1 = append(s1, battery...)
 	}
-	return []proto.ConcScript{{Input: c14MatrixInput, Steps: s0}, {Input: c14MatrixInput, Steps: s1}}, lay
+	return []proto.ConcScript{{Input: c14MatrixInput, NilIO: nilIO, Steps: s0}, {Input: c14MatrixInput, NilIO: nilIO, Steps: s1}}, lay
 }
